@@ -2921,6 +2921,12 @@ namespace bloch::runtime {
                                 ErrorCategory::Runtime, callExpr->line, callExpr->column,
                                 "instance method '" + name + "' requires an object receiver");
                         }
+                        // an implicit-this call of a virtual method is a virtual call
+                        if (method->isVirtual && receiver->cls) {
+                            auto it = receiver->cls->vtable.find(method->signature);
+                            if (it != receiver->cls->vtable.end())
+                                method = it->second;
+                        }
                     }
                     return callMethod(method, staticCls, receiver, args);
                 }
